@@ -176,6 +176,9 @@ func c16Jobs(thorough bool) []c16Job {
 				continue
 			}
 			jobs = append(jobs, c16Job{Kind: "order", Shapes: tp, Tables: []int{0, 0}, Route: "migrate", Ident: iv})
+			if thorough {
+				jobs = append(jobs, c16Job{Kind: "order", Shapes: tp, Tables: []int{0, 0}, Route: "ddl", Ident: iv})
+			}
 		}
 		n := len(c16DeclWithIdent(tp[0], "ig1", "t0", nil, "").Columns())
 		for o := range arrangements(n) {
@@ -195,8 +198,12 @@ func c16Jobs(thorough bool) []c16Job {
 			jobs = append(jobs, c16Job{Kind: "preexist", Shapes: tp, Tables: []int{0, 0}, Route: "migrate", Pre: pre})
 		}
 	}
-	// D. two sources
-	for n := 1; n <= 2; n++ {
+	// D. two sources (thorough: also the triples)
+	maxTwo := 2
+	if thorough {
+		maxTwo = 3
+	}
+	for n := 1; n <= maxTwo; n++ {
 		for _, tp := range tuples(n) {
 			for _, part := range partitions(n) {
 				for _, r := range routes {
@@ -441,7 +448,9 @@ func c16KeyCtx(j c16Job, b *c16Built, victim int, route string) string {
 	switch {
 	case j.Kind == "reserved":
 		return "reserved-" + j.Where + ":" + vc
-	case j.Ident != "" && victim == 0:
+	case strings.HasPrefix(j.Ident, "renamed:") && victim == 0:
+		return "identity-" + j.Ident // the failure does not depend on the shape or on who shares the table
+	case j.Ident != "" && victim == 0 && owner == 0:
 		v := j.Ident
 		if strings.HasPrefix(v, "prefix:") {
 			v = "prefix"
@@ -450,6 +459,8 @@ func c16KeyCtx(j c16Job, b *c16Built, victim int, route string) string {
 			return "identity-" + v // the failure does not depend on the shape
 		}
 		return "identity-" + v + ":" + vc
+	case j.Ident != "" && len(on) > 1:
+		return fmt.Sprintf("shared-table:key-of=%s:victim=%s", c16Class(j.Shapes[owner]), vc)
 	case j.Pre == "P1" && victim == 0:
 		return "preexisting-P1"
 	case j.Pre != "" && victim == 0:
